@@ -582,27 +582,24 @@ let run_case (line : string) =
        (match mode with
         | [A "parse"] ->
           let (r, s') = run_inner_state feat env o name argv in
-          (match outcome_of r with
-           | OutStderr m ->
-             (* the text of the message, when this level reported it (a failure of an entered subcommand arrives
-                ready-made: its state and metadata are not kept by the model) and every item is UTF-8 *)
-             let p = (match o with Options (p, _) -> p) in
-             let (st, amb) = initial_state o name argv in
-             let toplevel = (match amb with
-                 | Some _ -> true
-                 | None -> (match fst (eval env p st) with RErr (MsgParseFailure _) -> false | _ -> true)) in
+          (match r with
+           | SFail (FStderr (m, d)) ->
+             (* the text of the message: the document the failure carries (built by the command level that reported
+                it), rendered as ParseFailure::unwrap_stderr does -- when every item is UTF-8 *)
              let text =
-               if not toplevel then "-"
-               else if not (List.for_all (fun a -> utf8_valid (arg_os a)) s'.items) then "-"
+               if not (List.for_all (fun a -> utf8_valid (arg_os a)) s'.items) then "-"
                (* a value that is not UTF-8 (here: from the environment): the library quotes its lossy rendering,
                   the model's conversion error does not *)
                else if (match m with MsgParseFailed (_, t) -> hex_of_bytes t = "x206973206e6f7420612076616c69642075746638" | _ -> false) then "-"
-               else (match render_message_text feat.f_docgen m s' (meta_of p) with
-                   | Some t -> hex_of_bytes (utf8_encode t)
-                   | None -> "PANIC") in
+               else (match d with
+                   | None -> "PANIC"
+                   | Some d ->
+                     (match render_doc_text feat.f_docgen d with
+                      | Some t -> hex_of_bytes (utf8_encode t)
+                      | None -> "PANIC")) in
              let (k, t) = msg_kind_text m in
              Printf.printf "%s\tSTDERR\t%s\t%s\t%s\n" id k (hex_of_bytes t) text
-           | other -> print_outcome id other)
+           | _ -> print_outcome id (outcome_of r))
         | [A "tokens"] ->
           let (st, amb) = initial_state o name argv in
           let show = function
